@@ -10,7 +10,7 @@ OBLIGATIONS = [
        what='Repetition::transform maps each vector by m * R(c,s) * reflect, including the kind changes Rectangular->Regular and ExplicitX/Y->Explicit',
        bound='kinds x shapes {2x3 rectangular, 2x2 regular lattice, 3-entry lists} x reflection x (rotation == 0 | != 0) x (magnification == 1 | in -3..3); cos, sin free integers in -2..2; vectors in -2..2',
        variants=[dict(KIND=k, A=a, B=b, REFL=f, ROT0=z, MAG1=g) for (k, a, b) in ((1, 2, 3), (2, 2, 2), (3, 3, 0), (4, 3, 0), (5, 3, 0)) for f in (0, 1) for z in (0, 1) for g in (0, 1)],
-       unwind=8, timeout=300, retry_defines=['-DAXIS_ONLY'], nvec=40),
+       unwind=8, timeout=300, real_stub_syms=['cos', 'sin', 'sincos'], nvec=40),
     Ob('polygon_apply_repetition', 'C11/apply_rep.c', ['_ZN5gdstk7Polygon16apply_repetitionERNS_5ArrayIPS0_EE'], model='ie',
        what='Polygon::apply_repetition: count-1 independent deep copies (vertices, tag, property list), copy k translated by vector k, original keeps its geometry and loses the repetition',
        bound='2-vertex polygon with one property; Rectangular 2x2, 1x1, 1x3; Regular 2x2; Explicit / ExplicitX / ExplicitY with 0 and 2 entries; values in -3..3',
